@@ -71,6 +71,7 @@ HANG_WITNESS = np.array([
 M = Monitor(
     pid="C17",
     setup=_setup,
+    decoy=True,
     title="Hull projections return the nearest point, the boundary hit and the exact slice",
     rule=("cases: clouds in d=2..5 {uniform x 10^[-3,3], gaussian, d+1..d+4 points, integer grids and random "
           "integer points (many coplanar), nearly flat (relative thickness 1e-4..1e-1 for the hull clauses, "
@@ -289,6 +290,7 @@ def _proj_apply(call, B, eq, bshape, as_int):
 
 
 def chk_proj(inp, c):
+    c.decoy = False     # a decoy query could run into the known quadprog hang outside the forked termination probe
     P, B, kinds = np.asarray(inp["P"], float), np.asarray(inp["B"], float), list(inp["kinds"])
     bshape, as_int = inp["bshape"], bool(inp["int_B"])
     k, d = B.shape
